@@ -565,9 +565,13 @@ impl G {
     ///  2  a sequence of multi-key mappings whose shared key is written with int() / flt()
     ///     (matrix cells keep their cast); the field holds numeric texts, booleans, fractions
     pub fn flag_mix_source(&mut self) -> J {
+        let v = [0usize, 0, 1, 2, 3, 4, 5, 6, 0, 7][self.r.below(10)];
+        self.flag_mix_variant(v)
+    }
+    pub fn flag_mix_variant(&mut self, variant: usize) -> J {
         let ent = |m: &str, f: &str, v: J| json!({"m":m,"c":0,"f":cps(f),"v":v});
         let pat = |k: &str, ic: bool, a: &str| json!({"t":"pat","k":k,"ic":ic,"a":cps(a)});
-        match [0usize, 0, 1, 2, 3, 4, 5, 6, 0, 7][self.r.below(10)] {
+        match variant {
             // 7  all(X) / of(X, n) over a SEQUENCE identifier in which one entry carries a list of numbers
             //    or comparisons (an or-group inside the sequence's or-group): the entries are the
             //    mappings, however the optimiser treats the identifier on its own (coalesce off)
@@ -2534,6 +2538,33 @@ pub fn gen_cases(topic: &str, seed: u64, n: usize, path: &str) -> Result<(), Str
                        "plan":{"tri":false,"sws":[[]]}})
             }
             // C10: dotted / indexed keys and nested mappings on documents with objects and arrays
+            // a CHAIN of nested blocks with one key per level (`a: {b: {c: x}}`) over documents in which an
+            // outer or inner level is an ARRAY of objects: a nested block over an array means "some element
+            // satisfies it" at every level - it is not the dotted key `a.b.c`
+            "path" if mode == 0 => {
+                let leaf = json!({"t":"pat","k":"exact","ic":false,"a":cps("x")});
+                let ent = |f: &str, v: J| json!({"m":"none","c":0,"f":cps(f),"v":v});
+                let deep = g.r.chance(1, 2);
+                let inner = if deep { json!({"t":"map","es":[ent("c", leaf.clone())]}) } else { leaf.clone() };
+                let es = vec![ent("a", json!({"t":"map","es":[ent("b", inner)]}))];
+                let cond = if g.r.chance(1, 4) { json!({"t":"not","e":{"t":"id","n":cps("A")}}) } else { json!({"t":"id","n":cps("A")}) };
+                let src = json!({"cond":cond,"ids":[[cps("A"),{"t":"map","es":es}]]});
+                let lf = |t: &str| if deep { obj(vec![("c".into(), s_node(t))]) } else { s_node(t) };
+                let arr = |vs: Vec<J>| json!({"t":"A","vs":vs});
+                let docs = vec![
+                    obj(vec![("a".into(), obj(vec![("b".into(), lf("x"))]))]),
+                    obj(vec![("a".into(), arr(vec![obj(vec![("b".into(), lf("x"))])]))]),
+                    obj(vec![("a".into(), arr(vec![obj(vec![("b".into(), lf("y"))]), obj(vec![("b".into(), lf("x"))])]))]),
+                    obj(vec![("a".into(), obj(vec![("b".into(), arr(vec![lf("x")]))]))]),
+                    obj(vec![("a".into(), arr(vec![obj(vec![("b".into(), arr(vec![lf("y"), lf("x")]))])]))]),
+                    obj(vec![("a".into(), arr(vec![obj(vec![("b".into(), lf("y"))]), s_node("x")]))]),
+                    obj(vec![("a".into(), arr(vec![]))]),
+                    obj(vec![("a.b".into(), lf("x"))]),
+                    obj(vec![]),
+                ];
+                json!({"topic":"path","oracle":true,"wt":true,"src":src,"docs":docs,
+                       "plan":{"tri":true,"sws":[[], [true,true,true,true], [false,true,false,false], [true,true,false,false]],"reprs":["json","hm","own","doc","ownfind"]}})
+            }
             "path" => {
                 let segs = ["a", "b", "a[0]", "a[1]", "b[0]", "c"];
                 let mk_path = |g: &mut G| {
@@ -2601,6 +2632,23 @@ pub fn gen_cases(topic: &str, seed: u64, n: usize, path: &str) -> Result<(), Str
                         insert_path(&mut root, &full, leaf);
                     }
                     docs.push(obj_from(root));
+                }
+                // a member LITERALLY named like a path the rule writes (`"a.b[0]": x`, flattened logs): it is not
+                // what the key addresses - alone, and next to a real path that leads elsewhere
+                for e in es.iter().take(2) {
+                    let outer = str_of(&e["f"]).unwrap_or_default();
+                    let full = if e["v"]["t"] == "map" { format!("{}.{}", outer, str_of(&e["v"]["es"][0]["f"]).unwrap_or_default()) } else { outer.clone() };
+                    if full.contains('.') || full.contains('[') {
+                        docs.push(obj(vec![(full.clone(), s_node("x"))]));
+                        let mut root: Vec<(String, J)> = vec![];
+                        insert_path(&mut root, &full, s_node("y"));
+                        root.push((full.clone(), s_node("x")));
+                        docs.push(obj_from(root));
+                    }
+                    if e["v"]["t"] == "map" && (outer.contains('.') || outer.contains('[')) {
+                        // ... also for the outer key of a nested block
+                        docs.push(obj(vec![(outer.clone(), obj(vec![(str_of(&e["v"]["es"][0]["f"]).unwrap_or_default(), s_node("x"))]))]));
+                    }
                 }
                 json!({"topic":"path","oracle":true,"wt":true,"src":src,"docs":docs,
                        "plan":{"tri":true,"sws":[[], [true,true,true,true]],"reprs":["json","hm","own","doc","ownfind"]}})
@@ -2805,6 +2853,14 @@ pub fn gen_cases(topic: &str, seed: u64, n: usize, path: &str) -> Result<(), Str
             // booleans and numbers under a str() cast are compared as their exact canonical text - they are
             // not string PATTERNS, so neither the i prefix nor the ignore_case build folds them - next to
             // real patterns on the same field (a list, or or-ed identifiers that shake regroups)
+            "str" if mode == 2 && g.r.chance(1, 2) => {
+                g.own_docs = None;
+                let fv = if g.r.chance(2, 3) { 3 } else { 4 };
+                let src = g.flag_mix_variant(fv);
+                let docs = g.own_docs.take().unwrap_or_default();
+                json!({"topic":"str","oracle":true,"wt":true,"src":src,"docs":docs,
+                       "plan":{"tri":false,"sws":[[], [true,true,true,true], [false,true,false,false]]}})
+            }
             "str" if mode == 1 && g.r.chance(1, 2) => {
                 let lit = match g.r.below(3) { 0 => json!({"t":"bool","b":true}), 1 => json!({"t":"bool","b":false}), _ => json!({"t":"num","n":int_node("7")}) };
                 let p1 = json!({"t":"pat","k":*g.r.pick(&["prefix", "exact", "contains"]),"ic":false,"a":cps(*g.r.pick(&["x", "tr", "fa"]))});
